@@ -27,6 +27,7 @@ type Node struct {
 	Name     string
 	Children []Node `json:",omitempty"`
 	ViaGroup bool   `json:",omitempty"` // mounted through a Group of the parent: parent.Group(head).Use(rest, sub)
+	CS       bool   `json:",omitempty"` // the sub-app's own Config.CaseSensitive (the root app dispatches: its setting is the one that counts)
 }
 
 // splitGroup splits a mount prefix into a group prefix and the rest so that both together give the same full prefix
@@ -48,6 +49,7 @@ type Case struct {
 	ErrPos      int    // which handler of the chain raises the error (0-based; >= ChainLen: none, falls through)
 	CatchAll    bool   // root ends with a middleware raising the error for everything that reaches it
 	Repeat      int
+	RootCS      bool `json:",omitempty"` // Config.CaseSensitive of the root app
 	TopDown     bool `json:",omitempty"` // mount each sub-app into its parent before its own children are mounted into it
 }
 
@@ -59,6 +61,9 @@ type cand struct {
 }
 
 func fullPrefix(base, p string) string {
+	if p != "" && p[0] != '/' {
+		p = "/" + p // a prefix written without its leading slash is served with it, like every other path
+	}
 	return strings.TrimRight(strings.TrimRight(base, "/")+p, "/")
 }
 
@@ -148,11 +153,15 @@ func build(c Case) (*fiber.App, *run) {
 		app.Get("/x", hs[0], hs[1:]...)
 		app.Post("/y", func(ctx fiber.Ctx) error { return ctx.Next() })
 	}
-	root := fiber.New(cfg("root", c.RootHandler))
+	rootCfg := cfg("root", c.RootHandler)
+	rootCfg.CaseSensitive = c.RootCS
+	root := fiber.New(rootCfg)
 	var mount func(parent *fiber.App, nodes []Node)
 	mount = func(parent *fiber.App, nodes []Node) {
 		for _, nd := range nodes {
-			sub := fiber.New(cfg(nd.Name, nd.Handler))
+			subCfg := cfg(nd.Name, nd.Handler)
+			subCfg.CaseSensitive = nd.CS
+			sub := fiber.New(subCfg)
 			routes(sub)
 			use := func() {
 				if nd.ViaGroup {
@@ -193,7 +202,12 @@ func check(c Case) vk.Verdict {
 	want, wantKind := "root", c.RootHandler
 	best, bestDepth := -1, -1
 	for _, cd := range cands {
-		if lp := strings.ToLower(c.Path); cd.full == "" || lp == strings.ToLower(cd.full) || strings.HasPrefix(lp, strings.ToLower(cd.full)+"/") {
+		// the root app serves the request: prefix and path are compared the way it routes (case-sensitively or not)
+		lp, lf := strings.ToLower(c.Path), strings.ToLower(cd.full)
+		if c.RootCS {
+			lp, lf = c.Path, cd.full
+		}
+		if cd.full == "" || lp == lf || strings.HasPrefix(lp, lf+"/") {
 			// innermost: the longest prefix, and of two nested sub-apps with the same full prefix the inner one
 			if s := segments(cd.full); s > best || (s == best && cd.depth > bestDepth) {
 				best, bestDepth, want, wantKind = s, cd.depth, cd.name, cd.kind
@@ -274,7 +288,7 @@ func check(c Case) vk.Verdict {
 
 // ---- generator ------------------------------------------------------------------------------------------
 
-var prefixes = []string{"/api", "/api-v2", "/apix", "/api/v1", "/a", "/a/b", "/v1", "/", "/api/", "/ab"}
+var prefixes = []string{"/api", "/api-v2", "/apix", "/api/v1", "/a", "/a/b", "/v1", "/", "/api/", "/ab", "/Admin", "/API/v2", "noslash"}
 
 // shareable: a child mounted at "/" may share this parent's full prefix (the parent's own key does not end in a slash
 // and the parent is not itself such a child - otherwise both get the same key in the app list, which is the start-up
@@ -299,6 +313,7 @@ func genNodes(t *rapid.T, depth int, base string, shareable bool, used map[strin
 		*ctr++
 		nd := Node{Prefix: p, Handler: rapid.SampledFrom([]string{"", "ok", "ok", "fail", "fail-pass", "fail-fiber"}).Draw(t, "h"), Name: fmt.Sprintf("app%d", *ctr)}
 		nd.ViaGroup = rapid.IntRange(0, 2).Draw(t, "viagroup") == 0
+		nd.CS = rapid.IntRange(0, 2).Draw(t, "subcs") == 0
 		if depth > 0 {
 			nd.Children = genNodes(t, depth-1, full, !isShared && !strings.HasSuffix(p, "/"), used, ctr)
 		}
@@ -308,7 +323,7 @@ func genNodes(t *rapid.T, depth int, base string, shareable bool, used map[strin
 }
 
 func genCase(t *rapid.T) Case {
-	c := Case{RootHandler: rapid.SampledFrom([]string{"", "ok", "ok", "fail", "fail-pass", "fail-fiber"}).Draw(t, "root")}
+	c := Case{RootHandler: rapid.SampledFrom([]string{"", "ok", "ok", "fail", "fail-pass", "fail-fiber"}).Draw(t, "root"), RootCS: rapid.IntRange(0, 2).Draw(t, "rootcs") == 0}
 	ctr := 0
 	c.Tree = genNodes(t, 2, "", false, map[string]bool{"": true}, &ctr)
 	var cands []cand
